@@ -44,15 +44,16 @@ import (
 
 type c19Script struct {
 	Family string
-	W      []string // cfg.Capabilites
-	Sasl   string   // none | PLAIN | EXTERNAL
-	A      []string // advertised, in the order sent
-	Reply  string   // ack | nak | ack2 | ack-minus
-	Cont   string   // plus-903 | plus-904 | 908-904 | 904
-	Batch  bool     // all lines of one server reaction in one segment (thorough)
-	Early  bool     // ack-minus: the unsolicited "ACK :-a" follows the ACK at once (thorough)
-	Plus   string   // "" | before-reply | at-end: an "AUTHENTICATE +" nobody asked for, before the server answers CAP REQ (or right after LS when nothing is requested) / after the negotiation
-	Late   []string // CAP lines the server sends after the negotiation is over ("ACK :-a", "NAK :a zz", ...)
+	W      []string   // cfg.Capabilites
+	Sasl   string     // none | PLAIN | EXTERNAL
+	A      []string   // advertised, in the order sent
+	Reply  string     // ack | nak | ack2 | ack-minus
+	Cont   string     // plus-903 | plus-904 | 908-904 | 904
+	Batch  bool       // all lines of one server reaction in one segment (thorough)
+	Early  bool       // ack-minus: the unsolicited "ACK :-a" follows the ACK at once (thorough)
+	Plus   string     // "" | before-reply | at-end: an "AUTHENTICATE +" nobody asked for, before the server answers CAP REQ (or right after LS when nothing is requested) / after the negotiation
+	Again  *c19Script // the same client connects a second time and meets this script (same W and Sasl; what the server advertises and answers may differ)
+	Late   []string   // CAP lines the server sends after the negotiation is over ("ACK :-a", "NAK :a zz", ...)
 }
 
 func (p *c19Script) String() string {
@@ -69,6 +70,9 @@ func (p *c19Script) String() string {
 	}
 	if len(p.Late) > 0 {
 		x += " late=[" + strings.Join(p.Late, " | ") + "]"
+	}
+	if p.Again != nil {
+		x += fmt.Sprintf(" then-reconnect(advertised=[%s] reply=%s sasl-continuation=%s)", strings.Join(p.Again.A, " "), p.Again.Reply, p.Again.Cont)
 	}
 	return fmt.Sprintf("wanted=[%s] sasl=%s advertised=[%s] reply=%s sasl-continuation=%s batch=%v early-minus=%v%s", w, p.Sasl, a, p.Reply, p.Cont, p.Batch, p.Early, x)
 }
@@ -111,10 +115,11 @@ type c19srv struct {
 	payloads    int
 	requested   map[string]bool
 	lateMinusAt int
+	tag         string // "" | "connection 2: "
 }
 
 func (m *c19srv) fail(oracle, msg string) {
-	m.r.Findings = append(m.r.Findings, c19Finding{oracle, msg})
+	m.r.Findings = append(m.r.Findings, c19Finding{oracle, m.tag + msg})
 }
 
 func (m *c19srv) syncTranscript() {
@@ -375,102 +380,130 @@ func c19Run(p *c19Script) (*c19Result, *vx.Outcome) {
 			r.Findings = append(r.Findings, c19Finding{"connect-failed", err.Error()})
 			return
 		}
-		m := &c19srv{s: s, p: p, r: r, held: map[string]bool{}, requested: map[string]bool{}, saslAckAt: -1, lateMinusAt: -1}
-		seen := map[string]bool{}
-		for _, set := range [][]string{{"a", "b", "sasl", "zz"}, p.W, p.A} {
-			for _, n := range set {
-				if !seen[n] {
-					seen[n] = true
-					m.probe = append(m.probe, n)
+		scripts := []*c19Script{p}
+		if p.Again != nil {
+			scripts = append(scripts, p.Again)
+		}
+		held := map[string]bool{}
+		for ci, p := range scripts {
+			tag := ""
+			if ci > 0 {
+				// the same client connects again: another negotiation, judged like the first against what THIS server advertises
+				s.End()
+				if err := s.C.Connect(); err != nil {
+					r.Findings = append(r.Findings, c19Finding{"connect-failed", "second connect: " + err.Error()})
+					return
+				}
+				vx.Quiesce()
+				tag = fmt.Sprintf("connection %d: ", ci+1)
+				r.Transcript = append(r.Transcript, "-- reconnect --")
+				r.ReqLines, r.MechLines = nil, 0
+			}
+			m := &c19srv{s: s, p: p, r: r, held: held, requested: map[string]bool{}, saslAckAt: -1, lateMinusAt: -1, tag: tag}
+			seen := map[string]bool{}
+			for _, set := range [][]string{{"a", "b", "sasl", "zz"}, p.W, p.A} {
+				for _, n := range set {
+					if !seen[n] {
+						seen[n] = true
+						m.probe = append(m.probe, n)
+					}
 				}
 			}
-		}
-		m.checkHeld("before the server said anything")
-		m.pump()
-		if p.Reply == "ack-minus" && m.lateMinusAt == -1 {
-			m.lateMinusAt = len(s.Wire())
-			m.send([]c19line{{text: ":srv CAP me ACK :-a", demand: "late-ack-without-sasl"}})
-			m.pump()
-		}
-		if p.Plus == "at-end" {
-			m.send([]c19line{{text: "AUTHENTICATE +", plus: true}})
-			m.pump()
-		}
-		// late CAP lines: an ACK changes what is held, a NAK changes nothing (feed compares HasCapability after each)
-		// Each of them is "a NAK" resp. "an ACK that does not start SASL": a CAP END is due after it as well.
-		for _, l := range p.Late {
-			cl := c19line{text: ":srv CAP me " + l, demand: "late-nak"}
-			if strings.HasPrefix(l, "ACK :") {
-				cl = m.ack(strings.Fields(strings.TrimPrefix(l, "ACK :")))
-				cl.text = ":srv CAP me " + l
-				if cl.demand != "" {
-					cl.demand = "late-ack-without-sasl"
+			if ci == 0 {
+				m.checkHeld("before the server said anything")
+			} else {
+				// whether what was held on the previous connection is forgotten at the reconnect is left open: the
+				// client's answers at this point are the baseline for this connection
+				for _, c := range m.probe {
+					held[c] = s.C.HasCapability(c)
 				}
 			}
-			m.send([]c19line{cl})
 			m.pump()
-		}
-		m.syncTranscript()
-		wire := s.Wire()
+			if p.Reply == "ack-minus" && m.lateMinusAt == -1 {
+				m.lateMinusAt = len(s.Wire())
+				m.send([]c19line{{text: ":srv CAP me ACK :-a", demand: "late-ack-without-sasl"}})
+				m.pump()
+			}
+			if p.Plus == "at-end" {
+				m.send([]c19line{{text: "AUTHENTICATE +", plus: true}})
+				m.pump()
+			}
+			// late CAP lines: an ACK changes what is held, a NAK changes nothing (feed compares HasCapability after each)
+			// Each of them is "a NAK" resp. "an ACK that does not start SASL": a CAP END is due after it as well.
+			for _, l := range p.Late {
+				cl := c19line{text: ":srv CAP me " + l, demand: "late-nak"}
+				if strings.HasPrefix(l, "ACK :") {
+					cl = m.ack(strings.Fields(strings.TrimPrefix(l, "ACK :")))
+					cl.text = ":srv CAP me " + l
+					if cl.demand != "" {
+						cl.demand = "late-ack-without-sasl"
+					}
+				}
+				m.send([]c19line{cl})
+				m.pump()
+			}
+			m.syncTranscript()
+			wire := s.Wire()
 
-		// --- what was requested
-		want := m.wantedAndAdvertised()
-		var got []string
-		for n := range m.requested {
-			got = append(got, n)
-		}
-		sort.Strings(got)
-		if strings.Join(got, " ") != strings.Join(want, " ") {
-			m.fail("req-set-mismatch", fmt.Sprintf("requested over all CAP REQ lines: [%s]; wanted ∩ advertised: [%s]", c19short(got), c19short(want)))
-		}
-		if len(want) == 0 && len(r.ReqLines) > 0 {
-			m.fail("req-on-empty-intersection", "CAP REQ sent although nothing wanted is advertised: "+Q(r.ReqLines[0]))
-		}
-		// --- CAP END
-		var ends []int
-		for i, l := range wire {
-			if l == "CAP END" {
-				ends = append(ends, i)
+			// --- what was requested
+			want := m.wantedAndAdvertised()
+			var got []string
+			for n := range m.requested {
+				got = append(got, n)
 			}
-		}
-		r.CapEnds = len(ends)
-		for _, d := range m.demands {
-			ok := false
-			for _, i := range ends {
-				if i >= d.after {
-					ok = true
+			sort.Strings(got)
+			if strings.Join(got, " ") != strings.Join(want, " ") {
+				m.fail("req-set-mismatch", fmt.Sprintf("requested over all CAP REQ lines: [%s]; wanted ∩ advertised: [%s]", c19short(got), c19short(want)))
+			}
+			if len(want) == 0 && len(r.ReqLines) > 0 {
+				m.fail("req-on-empty-intersection", "CAP REQ sent although nothing wanted is advertised: "+Q(r.ReqLines[0]))
+			}
+			// --- CAP END
+			var ends []int
+			for i, l := range wire {
+				if l == "CAP END" {
+					ends = append(ends, i)
 				}
 			}
-			if !ok {
-				m.fail("no-cap-end-after-"+d.why, fmt.Sprintf("no CAP END on the wire after the server's %s (client lines from position %d on: %s)", d.why, d.after+1, joinQ(wire[minInt(d.after, len(wire)):])))
-			}
-		}
-		if m.saslAckAt >= 0 && len(ends) > 0 && ends[0] < m.saslAckAt {
-			r.EndBeforeSaslAck = true
-		}
-		if m.lateMinusAt >= 0 {
-			for _, i := range ends {
-				if i >= m.lateMinusAt {
-					r.EndAfterLateMinus = true
+			r.CapEnds = len(ends)
+			for _, d := range m.demands {
+				ok := false
+				for _, i := range ends {
+					if i >= d.after {
+						ok = true
+					}
+				}
+				if !ok {
+					m.fail("no-cap-end-after-"+d.why, fmt.Sprintf("no CAP END on the wire after the server's %s (client lines from position %d on: %s)", d.why, d.after+1, joinQ(wire[minInt(d.after, len(wire)):])))
 				}
 			}
-		}
-		if len(m.plusAt) > 0 && m.payloads == 0 {
-			r.PayloadMissing = true
-		}
-		// --- still alive
-		n := len(wire)
-		s.Feed("PING :sync")
-		pong := false
-		for _, l := range s.WireSince(n) {
-			if NormLine(l) == "PONG :sync" {
-				pong = true
+			if m.saslAckAt >= 0 && len(ends) > 0 && ends[0] < m.saslAckAt {
+				r.EndBeforeSaslAck = true
 			}
+			if m.lateMinusAt >= 0 {
+				for _, i := range ends {
+					if i >= m.lateMinusAt {
+						r.EndAfterLateMinus = true
+					}
+				}
+			}
+			if len(m.plusAt) > 0 && m.payloads == 0 {
+				r.PayloadMissing = true
+			}
+			// --- still alive
+			n := len(wire)
+			s.Feed("PING :sync")
+			pong := false
+			for _, l := range s.WireSince(n) {
+				if NormLine(l) == "PONG :sync" {
+					pong = true
+				}
+			}
+			if !pong {
+				m.fail("no-pong-after-negotiation", "PING :sync after the negotiation was not answered; client wrote "+joinQ(s.WireSince(n)))
+			}
+			m.checkHeld("after the final PING")
 		}
-		if !pong {
-			m.fail("no-pong-after-negotiation", "PING :sync after the negotiation was not answered; client wrote "+joinQ(s.WireSince(n)))
-		}
-		m.checkHeld("after the final PING")
 		s.End()
 	})
 	switch o.Kind {
@@ -751,6 +784,33 @@ func init() {
 											continue
 										}
 										if !yield(&c19Script{Family: "late-lines", W: w, Sasl: mech, A: a, Reply: rep, Cont: ct, Late: late}) {
+											return
+										}
+									}
+								}
+							}
+						}
+					}))
+				}
+			}
+			// reconnect: the same client negotiates a second time, with a server that advertises the same or another set
+			for wi, w := range allW {
+				if tier != "thorough" && wi != 3 && wi != 15 && wi != 7 {
+					continue
+				}
+				for _, mech := range mechs {
+					w, mech := w, mech
+					jobs = append(jobs, c19Job(fmt.Sprintf("reconnect/W=%d/sasl=%s", wi, mech), false, func(yield func(p *c19Script) bool) {
+						for _, a1 := range allA {
+							for _, a2 := range allA {
+								for _, rep := range []string{"ack", "nak"} {
+									for _, ct := range []string{"plus-903", "904"} {
+										if ct != "plus-903" && mech == "none" {
+											continue
+										}
+										p := &c19Script{Family: "reconnect", W: w, Sasl: mech, A: a1, Reply: rep, Cont: ct,
+											Again: &c19Script{Family: "reconnect", W: w, Sasl: mech, A: a2, Reply: "ack", Cont: "plus-903"}}
+										if !yield(p) {
 											return
 										}
 									}
